@@ -44,9 +44,15 @@ Inductive source :=
 | SRepeat (x n : Z)                  (* iterator.Repeat(x, n) *)
 | SEmpty
 | SChan (l : list Z)                 (* iterator.Chan / stream.Chan over a closed channel holding l *)
-| SScript (evs : list sevent).       (* streams only: scripted source; after the script: End forever.
+| SScript (evs : list sevent)        (* streams only: scripted source; after the script: End forever.
                                         A Next whose context is expired returns the context error
                                         and consumes nothing. *)
+| SScriptNC (evs : list sevent).     (* streams only: scripted source that never looks at the
+                                        context: a Next with an expired context behaves exactly
+                                        like a live one (returns the next scripted event and
+                                        consumes it).  Slice-backed streams that do not check
+                                        ctx, channel-backed streams whose select picks the ready
+                                        item. *)
 
 (* pipelines yielding Z (pz) and pipelines yielding lists of Z (pl) *)
 Inductive pz :=
